@@ -15,7 +15,7 @@ for d in seeded/*/; do
   n=$(basename $d); id=${n%%-*}
   [ -f $d/patch.diff ] || continue
   case $n in C09-B) echo "$n skipped (needs 8 GiB)" >> $out; continue;; esac
-  [ -n "${SEED_ONLY:-}" ] && ! echo "$n" | grep -q -E "$SEED_ONLY" && continue
+  [ -n "${SEED_ONLY:-}" ] && ! echo "$n" | grep -q -E -- "$SEED_ONLY" && continue
   r=$(SEED_NOTE="matrix run $(git -C $HERE rev-parse --short HEAD)" ./seedrerun.sh $n $id quick 2>&1 | tail -1)
   echo "$n $r" >> $out
 done
